@@ -387,3 +387,93 @@ Proof.
   2:{ eapply Forall_impl; [|exact Hm]. intros b Hb. cbn beta in Hb. lia. }
   rewrite Hdec, Hb64. reflexivity.
 Qed.
+
+(* ---- the base64 branch of EncodeStringAsShortestDataURL (the codec itself is trusted) ---- *)
+Definition b64_char (c : Z) : Prop :=
+  (65 <= c <= 90) \/ (97 <= c <= 122) \/ (48 <= c <= 57) \/ c = 43 \/ c = 47 \/ c = 61.
+
+Lemma percent_decode_no_pct l : Forall (fun c => c <> 37) l -> percent_decode l = l.
+Proof.
+  induction 1 as [|c l Hc Hl IH]; [reflexivity|]. cbn [percent_decode].
+  replace (c =? 37) with false by lia. rewrite IH. reflexivity.
+Qed.
+
+Lemma starts_with_app p l : starts_with p (p ++ l) = Some l.
+Proof. induction p as [|a p IH]; cbn; [reflexivity|]. rewrite Z.eqb_refl. exact IH. Qed.
+
+Lemma ends_with_base64_app mime : ends_with_base64 (mime ++ base64_suffix) = Some mime.
+Proof.
+  unfold ends_with_base64. rewrite rev_app_distr, starts_with_app, rev_involutive. reflexivity.
+Qed.
+
+Section Base64.
+  Variable b64enc : bytes -> bytes.
+  Variable b64dec : bytes -> option bytes.
+  Hypothesis b64_roundtrip : forall t, Forall byte_ok t -> b64dec (b64enc t) = Some t.
+  Hypothesis b64_alphabet : forall t, Forall byte_ok t -> Forall b64_char (b64enc t).
+
+  (* the bytes a data: URL denotes *)
+  Definition data_url_value (url : bytes) : option bytes :=
+    match whatwg_data_url_body url with
+    | Some (_, true, body) => b64dec body
+    | Some (_, false, body) => Some body
+    | None => None
+    end.
+
+  Lemma base64_url_value mime text :
+    mime_ok mime -> Forall byte_ok text ->
+    data_url_value (data_prefix ++ mime ++ base64_marker ++ [44] ++ b64enc text) = Some text.
+  Proof.
+    intros [Hm _] Hbytes. unfold data_url_value, whatwg_data_url_body.
+    pose proof (b64_alphabet text Hbytes) as Ha.
+    set (B := b64enc text) in *.
+    (* shape: first byte :: middle ++ [last byte], last byte > 32 *)
+    assert (Hshape : exists mid x, data_prefix ++ mime ++ base64_marker ++ [44] ++ B = 100 :: mid ++ [x] /\ 32 < x).
+    { destruct B as [|b0 B'] eqn:EB.
+      - exists ([97; 116; 97; 58] ++ mime ++ base64_marker), 44. split; [|lia].
+        unfold data_prefix. cbn [app]. rewrite <- !app_assoc. reflexivity.
+      - destruct (@exists_last _ (b0 :: B') ltac:(discriminate)) as [b' [x Hx]].
+        exists ([97; 116; 97; 58] ++ mime ++ base64_marker ++ [44] ++ b'), x. split.
+        + rewrite Hx. unfold data_prefix. cbn [app]. do 5 f_equal. rewrite <- !app_assoc. reflexivity.
+        + rewrite Hx in Ha. apply Forall_app in Ha as [_ Ha]. inversion Ha; subst. unfold b64_char in *. lia. }
+    destruct Hshape as [mid [x [Hshape Hx]]].
+    rewrite Hshape, strip_id by lia. rewrite <- Hshape. clear Hshape mid x Hx.
+    assert (Hmk : Forall (fun b => 32 < b <= 126 /\ b <> 44 /\ b <> 35 /\ b <> 37) base64_marker) by (repeat constructor; lia).
+    assert (Hb : Forall (fun b => 32 < b <= 126 /\ b <> 44 /\ b <> 35 /\ b <> 37) B).
+    { eapply Forall_impl; [|exact Ha]. intros b Hbc. unfold b64_char in Hbc. lia. }
+    unfold remove_tab_newline. rewrite filter_id.
+    2:{ unfold data_prefix. apply Forall_app. split; [repeat constructor|].
+        assert (Hg : forall l, Forall (fun b => 32 < b <= 126 /\ b <> 44 /\ b <> 35 /\ b <> 37) l ->
+                     Forall (fun c => negb (tab_or_newline c) = true) l).
+        { intros l Hl. eapply Forall_impl; [|exact Hl]. intros b Hbb. cbn beta in Hbb. unfold tab_or_newline.
+          replace (b =? 9) with false by lia. replace (b =? 10) with false by lia. replace (b =? 13) with false by lia. reflexivity. }
+        apply Forall_app. split; [apply Hg; exact Hm|]. apply Forall_app. split; [apply Hg; exact Hmk|].
+        apply Forall_app. split; [repeat constructor|apply Hg; exact Hb]. }
+    unfold data_prefix. cbn [app starts_with]. rewrite !Z.eqb_refl.
+    rewrite (app_assoc mime base64_marker).
+    rewrite cut_fragment_id.
+    2:{ apply Forall_app. split.
+        - apply Forall_app. split; eapply Forall_impl; try exact Hm; try exact Hmk; intros b Hbb; cbn beta in Hbb; lia.
+        - constructor; [lia|]. eapply Forall_impl; [|exact Hb]. intros b Hbb. cbn beta in Hbb. lia. }
+    rewrite c0_encode_app, c0_encode_printable.
+    2:{ apply Forall_app. split; eapply Forall_impl; try exact Hm; try exact Hmk; intros b Hbb; cbn beta in Hbb; lia. }
+    rewrite c0_cons. replace ((44 <? 32) || (126 <? 44)) with false by reflexivity. cbn [app].
+    rewrite split_comma_app.
+    2:{ apply Forall_app. split; eapply Forall_impl; try exact Hm; try exact Hmk; intros b Hbb; cbn beta in Hbb; lia. }
+    rewrite c0_encode_printable by (eapply Forall_impl; [|exact Hb]; intros b Hbb; cbn beta in Hbb; lia).
+    rewrite percent_decode_no_pct by (eapply Forall_impl; [|exact Hb]; intros b Hbb; cbn beta in Hbb; lia).
+    change base64_marker with base64_suffix. rewrite ends_with_base64_app. apply b64_roundtrip. exact Hbytes.
+  Qed.
+
+  (* EncodeStringAsShortestDataURL: whichever form is chosen denotes the text *)
+  Lemma shortest_roundtrip_all mime text :
+    mime_ok mime -> Forall byte_ok text -> data_url_value (encode_shortest b64enc mime text) = Some text.
+  Proof.
+    intros Hm Hok. unfold encode_shortest.
+    destruct (encode_percent mime text) as [p|] eqn:Ep.
+    - destruct (Nat.ltb (length p) (length (data_prefix ++ mime ++ base64_marker ++ [44] ++ b64enc text))).
+      + unfold data_url_value. rewrite (percent_roundtrip_all _ _ _ Hm Hok Ep). reflexivity.
+      + apply base64_url_value; assumption.
+    - apply base64_url_value; assumption.
+  Qed.
+End Base64.
